@@ -1,2 +1,245 @@
-//! Harnesses for property C08 (see /verif/properties.jsonl).
+//! Harnesses for property C08 (see /verif/properties.jsonl): a plain source uses a packet for
+//! synchronisation only if it is a fresh answer to the pending request, and at most once.
+use crate::common::*;
 use crate::stubs;
+use ntp_proto::*;
+
+/// One `handle_incoming` from an arbitrary state with an arbitrary packet; oracle on raw bytes.
+#[cfg(kani)]
+fn accept_body(src: &mut Src, pre: &Pre, pkt: &[u8], send: u64, recv: u64) {
+    let before = sh::state(src);
+    let acts = collect(src.handle_incoming(pkt, th::ts_from_raw(send), th::ts_from_raw(recv)));
+    let after_t = tokio::time::Instant::now();
+    let post = sh::state(src);
+    let ctl = sh::controller(src);
+    let n = ctl.n_meas;
+
+    let v = version_bits(pkt);
+    let stratum = stratum_byte(pkt);
+
+    // handle_incoming never asks for anything (plain source): no send / reset / demobilise
+    assert!(acts.n == 0, "C08: a received packet produces no actions on a plain source");
+    assert!(n == 0 || n == 2, "C08: measurements come as exactly one outgoing+incoming pair");
+
+    if n != 0 {
+        assert!(ctl.kinds[0] == 1 && ctl.kinds[1] == 2, "C08: pair is (system->source, source->system)");
+        assert!(pre.has_pending, "C08: accepted without a pending request");
+        assert!(pre.deadline >= pre.base, "C08: accepted after the poll window closed");
+        assert!(origin_field(pkt) == pre.pending_id, "C08: accepted with a foreign origin timestamp / client cookie");
+        assert!(version_expected(pre.pv, v), "C08: accepted an unexpected protocol version");
+        assert!(mode_bits(pkt) == 4, "C08: accepted a packet that is not in server mode");
+        assert!(stratum != 0, "C08: a KISS packet was used as a measurement");
+        assert!(stratum <= 16, "C08: accepted stratum above 16");
+        assert!(!post.pending, "C08: pending request not cleared after acceptance (replayable)");
+        // the measurement is taken from this packet and these local timestamps
+        assert!(ctl.sender_ts[0] == send && ctl.receiver_ts[0] == be64(pkt, 32), "C08: outgoing = (send time, packet receive ts)");
+        assert!(ctl.sender_ts[1] == be64(pkt, 40) && ctl.receiver_ts[1] == recv, "C08: incoming = (packet transmit ts, recv time)");
+    }
+
+    // a packet that cannot be an answer to the pending request has no effect whatsoever
+    // (in particular KISS codes are not looked at before the request matching)
+    if !may_match(pre, pkt) {
+        assert!(n == 0, "C08: unsolicited packet measured");
+        assert!(post == before, "C08: unsolicited / stale / forged packet changed the source state");
+        assert!(pending_unchanged(src, pre), "C08: unsolicited packet touched the pending request");
+    }
+    // anything that is not accepted leaves the pending request as it was
+    if n == 0 {
+        assert!(pending_unchanged(src, pre), "C08: rejected packet touched the pending request");
+        assert!(post.reach == before.reach, "C08: rejected packet changed reachability");
+    }
+
+    // acceptance is reachable, and so are the individual reasons for rejection
+    kani::cover!(n == 2, "a fresh matching answer is accepted");
+    kani::cover!(n == 2 && stratum == 16, "stratum 16 accepted");
+    kani::cover!(n == 2 && pre.deadline == pre.base, "accepted exactly at the deadline reading");
+    kani::cover!(n == 0 && must_match(pre, pkt, after_t) && stratum == 0, "matching KISS packet not measured");
+    kani::cover!(n == 0 && must_match(pre, pkt, after_t) && stratum == 17, "matching packet with stratum 17 rejected");
+    kani::cover!(n == 0 && must_match(pre, pkt, after_t) && stratum == 1 && mode_bits(pkt) != 4, "matching packet in a non-server mode rejected");
+    kani::cover!(n == 0 && pre.has_pending && origin_field(pkt) == pre.pending_id && pre.deadline < pre.base, "late answer rejected");
+    kani::cover!(n == 0 && pre.has_pending && pre.deadline >= after_t && origin_field(pkt) != pre.pending_id && decodable(pkt), "foreign origin rejected");
+    kani::cover!(n == 0 && !pre.has_pending && decodable(pkt), "no request pending: rejected");
+}
+
+sharness! {
+    #[kani::unwind(12)]
+    fn c08_accept() {
+        stubs::symbolic_clock();
+        let (mut src, pre) = any_source(PvClass::Any);
+        let mut p = any_pkt4();
+        let b0: u8 = kani::any();
+        let send: u64 = kani::any();
+        let recv: u64 = kani::any();
+        let mut run = |v: u8| {
+            p.set_b0(v);
+            accept_body(&mut src, &pre, p.bytes(), send, recv);
+        };
+        for_b0!(quick, b0, run);
+        kani::cover!(sh::controller(&src).n_meas == 2 && b0 == 0x1C, "v3 answer accepted by a V4 association");
+        kani::cover!(sh::controller(&src).n_meas == 2 && matches!(pre.pv, ProtocolVersion::V4UpgradingToV5 { .. }), "answer accepted while upgrading");
+    }
+}
+
+sharness! {
+    #[kani::unwind(12)]
+    fn c08_accept_full() {
+        stubs::symbolic_clock();
+        let (mut src, pre) = any_source(PvClass::Any);
+        let mut p = any_pkt4();
+        let b0: u8 = kani::any();
+        let send: u64 = kani::any();
+        let recv: u64 = kani::any();
+        let mut run = |v: u8| {
+            p.set_b0(v);
+            accept_body(&mut src, &pre, p.bytes(), send, recv);
+        };
+        for_b0!(full, b0, run);
+    }
+}
+
+sharness! {
+    #[kani::unwind(30)]
+    fn c08_accept_v5() {
+        stubs::symbolic_clock();
+        let (mut src, pre) = any_source(PvClass::Any);
+        let mut p = any_pkt5();
+        let sel: u8 = kani::any();
+        let send: u64 = kani::any();
+        let recv: u64 = kani::any();
+        let mut run = |b0: u8, b12: u8, b14: u8, b15: u8| {
+            p.set_hdr(b0, b12, b14, b15);
+            accept_body(&mut src, &pre, p.bytes(), send, recv);
+        };
+        for_v5hdr!(all, sel, run);
+        kani::cover!(sh::controller(&src).n_meas == 2 && matches!(pre.pv, ProtocolVersion::UpgradedToV5), "v5 answer accepted after upgrade");
+        kani::cover!(sh::controller(&src).n_meas == 2 && matches!(pre.pv, ProtocolVersion::V5), "v5 answer accepted by a V5 association");
+    }
+}
+
+/// Two consecutive packets (arbitrary, possibly identical = replay) yield at most one pair.
+#[derive(Default)]
+struct ReplayState {
+    n1: u8,
+    pend1: bool,
+    acts1: usize,
+}
+
+#[cfg(kani)]
+fn replay_first(src: &mut Src, st: &mut ReplayState, p1: &[u8], t: [u64; 4]) {
+    let a1 = collect(src.handle_incoming(p1, th::ts_from_raw(t[0]), th::ts_from_raw(t[1])));
+    st.n1 = sh::controller(src).n_meas;
+    st.pend1 = sh::state(src).pending;
+    st.acts1 = a1.n;
+}
+
+#[cfg(kani)]
+fn replay_second(src: &mut Src, pre: &Pre, st: &ReplayState, p1: &[u8], p2: &[u8], t: [u64; 4]) {
+    let a2 = collect(src.handle_incoming(p2, th::ts_from_raw(t[2]), th::ts_from_raw(t[3])));
+    let n1 = st.n1;
+    let n2 = sh::controller(src).n_meas;
+    assert!(st.acts1 == 0 && a2.n == 0, "C08: no actions");
+    assert!(n2 <= 2, "C08: one request yielded more than one measurement pair");
+    assert!(n1 == 0 || n1 == 2, "C08: pair");
+    assert!(n2 == n1 || (n1 == 0 && n2 == 2), "C08: pair");
+    if n1 == 2 {
+        assert!(!st.pend1, "C08: identifier must be one-shot");
+        assert!(n2 == 2, "C08: a second packet after acceptance (replay/duplicate) was measured");
+    }
+    if n2 != 0 {
+        assert!(pre.has_pending && pre.deadline >= pre.base, "C08: measured without a fresh pending request");
+    }
+    let same = {
+        let mut s = p1.len() == p2.len();
+        let mut i = 0;
+        while i < p1.len() && i < p2.len() {
+            s &= p1[i] == p2[i];
+            i += 1;
+        }
+        s
+    };
+    kani::cover!(n1 == 2 && same, "accepted packet replayed verbatim and ignored");
+    kani::cover!(n1 == 0 && n2 == 2, "first packet ignored, second accepted");
+    kani::cover!(n1 == 2 && origin_field(p2) == pre.pending_id && !same, "second answer to the same request ignored");
+}
+
+sharness! {
+    #[kani::unwind(50)]
+    fn c08_replay() {
+        stubs::symbolic_clock();
+        let (mut src, pre) = any_source(PvClass::Any);
+        let mut p1 = any_pkt4();
+        let mut p2 = any_pkt4();
+        let b0a: u8 = kani::any();
+        let b0b: u8 = kani::any();
+        let t: [u64; 4] = kani::any();
+        let mut st = ReplayState::default();
+        let mut run1 = |v: u8| {
+            p1.set_b0(v);
+            replay_first(&mut src, &mut st, p1.bytes(), t);
+        };
+        for_b0!(quick, b0a, run1);
+        let mut run2 = |v: u8| {
+            p2.set_b0(v);
+            replay_second(&mut src, &pre, &st, p1.bytes(), p2.bytes(), t);
+        };
+        for_b0!(quick, b0b, run2);
+    }
+}
+
+sharness! {
+    #[kani::unwind(80)]
+    fn c08_replay_v5() {
+        stubs::symbolic_clock();
+        let (mut src, pre) = any_source(PvClass::V5Family);
+        let mut p1 = any_pkt5();
+        let mut p2 = any_pkt5();
+        let s1: u8 = kani::any();
+        let s2: u8 = kani::any();
+        let t: [u64; 4] = kani::any();
+        let mut st = ReplayState::default();
+        let mut run1 = |b0: u8, b12: u8, b14: u8, b15: u8| {
+            p1.set_hdr(b0, b12, b14, b15);
+            replay_first(&mut src, &mut st, p1.bytes(), t);
+        };
+        for_v5hdr!(quick, s1, run1);
+        let mut run2 = |b0: u8, b12: u8, b14: u8, b15: u8| {
+            p2.set_hdr(b0, b12, b14, b15);
+            replay_second(&mut src, &pre, &st, p1.bytes(), p2.bytes(), t);
+        };
+        for_v5hdr!(quick, s2, run2);
+    }
+}
+
+/// The request a timer sends is the one the source then waits for, for exactly the poll window.
+sharness! {
+    #[kani::unwind(30)]
+    fn c08_request() {
+        stubs::symbolic_clock();
+        stubs::symbolic_rng();
+        let (mut src, pre) = any_source(PvClass::Any);
+        let t0 = tokio::time::Instant::now();
+        let acts = collect(src.handle_timer());
+        let t1 = tokio::time::Instant::now();
+        let window = std::time::Duration::from_secs(sh::POLL_WINDOW_SECS);
+        assert!(sh::POLL_WINDOW_SECS >= 1 && sh::POLL_WINDOW_SECS <= 8, "C08: poll window shorter than the shortest configured poll interval (2^4 s)");
+        if let Some(p) = &acts.sent {
+            assert!(p.len() >= 48, "C08: request has a full header");
+            match pending_of(&src) {
+                None => assert!(false, "C08: a request was sent but none is pending"),
+                Some((id, has_uid, deadline)) => {
+                    // v4: our transmit timestamp (octets 40..48) must come back as origin;
+                    // v5: the client cookie (octets 24..32)
+                    let sent_id = if version_bits(p) == 5 { be64(p, 24) } else { be64(p, 40) };
+                    assert!(id == sent_id, "C08: the pending identifier is not the one in the request just sent");
+                    assert!(!has_uid, "C08: plain source has no unique identifier");
+                    assert!(deadline >= t0 + window && deadline <= t1 + window, "C08: deadline = send time + poll window");
+                }
+            }
+            kani::cover!(version_bits(p) == 5 && be64(p, 24) == 0x0123_4567_89AB_CDEF, "v5 cookie is random");
+            kani::cover!(version_bits(p) == 4 && be64(p, 40) == 0x0123_4567_89AB_CDEF, "v4 transmit timestamp is random");
+        } else {
+            assert!(pending_unchanged(&src, &pre), "C08: nothing sent, pending request untouched");
+        }
+        kani::cover!(acts.sent.is_none(), "reset/demobilise path");
+    }
+}
